@@ -34,6 +34,7 @@ DIVS = [Fraction(1, 2), Fraction(2), Fraction(4), Fraction(1, 4)]
 
 class Universe:
     """A generated data universe; `lines(src)` renders it for source id src."""
+    ALLOW_CUSTOM = True      # effects eos customises itself (propulsion modules, ancillary armor repairers)
 
     def __init__(self, rng, malformed=False):
         self.rng = rng
@@ -117,6 +118,18 @@ class Universe:
         for eid in self.side_effect_ids:
             self.effects[eid] = dict(cat=int(EC.passive), chance=r.choice(self.base_attrs), resist=None,
                                      mods=self.gen_mods(int(EC.passive), r.randint(0, 2)))
+        # effects that eos customises itself (eve_obj/custom): propulsion modules and ancillary armor repairers
+        self.custom = self.ALLOW_CUSTOM and r.random() < 0.6
+        self.prop_types, self.aar_types = [], []
+        if self.custom:
+            for a in (AttrId.mass, AttrId.max_velocity, AttrId.signature_radius):
+                self.attrs[int(a)] = dict(default=None, hig=a != AttrId.signature_radius, stackable=r.random() < 0.5, max=None)
+            for a in (AttrId.speed_factor, AttrId.speed_boost_factor, AttrId.mass_addition,
+                      AttrId.signature_radius_bonus, AttrId.armor_dmg_amount, AttrId.charged_armor_dmg_mult):
+                self.attrs[int(a)] = dict(default=None, hig=True, stackable=True, max=None)
+            for e in (EffectId.module_bonus_afterburner, EffectId.module_bonus_microwarpdrive,
+                      EffectId.fueled_armor_repair):
+                self.effects[int(e)] = dict(cat=int(EC.active), chance=None, resist=None, mods=[])
         # types
         self.types[int(TypeId.character_static)] = self.gen_type(None, None, allow_effects=('passive',))
         for t in self.skill_types:
@@ -163,6 +176,49 @@ class Universe:
             self.types[mt2]['attrs'][self.base_attrs[1]] = r.choice(PERCENTS)
             for st in self.ship_types:
                 self.types[st]['attrs'].setdefault(tgt, r.choice(DYADIC))
+        if self.custom:
+            for t in self.ship_types:
+                at = self.types[t]['attrs']
+                if r.random() < 0.85:
+                    at[int(AttrId.mass)] = r.choice([Fraction(1000), Fraction(2048), Fraction(0), Fraction(512)])
+                if r.random() < 0.85:
+                    at[int(AttrId.max_velocity)] = r.choice([Fraction(100), Fraction(256)])
+                if r.random() < 0.7:
+                    at[int(AttrId.signature_radius)] = r.choice([Fraction(64), Fraction(100)])
+            # propulsion modules
+            for t, e in ((3250, EffectId.module_bonus_afterburner), (3251, EffectId.module_bonus_microwarpdrive)):
+                attrs = {}
+                for a, vals in ((AttrId.speed_factor, [Fraction(100), Fraction(128), Fraction(500)]),
+                                (AttrId.speed_boost_factor, [Fraction(1024), Fraction(4096), Fraction(500)]),
+                                (AttrId.mass_addition, [Fraction(512), Fraction(1000)]),
+                                (AttrId.signature_radius_bonus, [Fraction(100), Fraction(400)])):
+                    if r.random() < 0.9:
+                        attrs[int(a)] = r.choice(vals)
+                effects = [int(e)] + ([int(EffectId.online)] if r.random() < 0.5 else [])
+                self.types[t] = dict(group=r.choice(self.groups), category=int(TC.module), default=int(e), attrs=attrs,
+                                     effects=effects, skills={}, abilities=[])
+                self.prop_types.append(t)
+            # ancillary armor repairer; its charge of nanite repair paste
+            attrs = {int(AttrId.armor_dmg_amount): r.choice([Fraction(100), Fraction(64)])}
+            if r.random() < 0.9:
+                attrs[int(AttrId.charged_armor_dmg_mult)] = r.choice([Fraction(3), Fraction(2), Fraction(3, 2)])
+            self.types[3260] = dict(group=r.choice(self.groups), category=int(TC.module),
+                                    default=int(EffectId.fueled_armor_repair), attrs=attrs,
+                                    effects=[int(EffectId.fueled_armor_repair)], skills={}, abilities=[])
+            self.aar_types.append(3260)
+            self.types[int(TypeId.nanite_repair_paste)] = self.gen_type(r.choice(self.groups), int(TC.charge),
+                                                                         allow_effects=('passive',))
+            self.module_types = self.module_types + self.prop_types + self.aar_types
+            self.charge_types = self.charge_types + [int(TypeId.nanite_repair_paste)]
+            # something that changes the inputs of the python modifiers: ship mass / module strength
+            some = [e for e in self.effect_ids if self.effects[e]['cat'] in (int(EC.passive), int(EC.online))]
+            for e in some[:2]:
+                self.effects[e]['mods'].append(dict(
+                    filter=int(F.item), extra=None, domain=int(r.choice([D.ship, D.self])),
+                    tgt=int(r.choice([AttrId.mass, AttrId.speed_factor, AttrId.charged_armor_dmg_mult,
+                                      AttrId.speed_boost_factor])),
+                    op=int(r.choice([OP.post_mul, OP.mod_add])), agg=int(AG.stack), key=None,
+                    src=r.choice(self.base_attrs)))
         bt = self.types[self.misc_types['booster'][0]]
         for eid in self.side_effect_ids:
             if r.random() < 0.8 and eid not in bt['effects']:
@@ -360,6 +416,26 @@ class Universe:
                 out.append('u_tskill %d %d %d %d' % (src, t, s, l))
             for aid in ty.get('abilities', []):
                 out.append('u_tability %d %d %d' % (src, t, aid))
+        if getattr(self, 'custom', False):
+            # what eos's customisations add to these effects / types (the model is told; eos does it itself)
+            ab, mwd, aar = (int(EffectId.module_bonus_afterburner), int(EffectId.module_bonus_microwarpdrive),
+                            int(EffectId.fueled_armor_repair))
+            for e in (ab, mwd):
+                if e in self.effects:
+                    out.append('m_pymod %d %d 1 %d %d %d' % (src, e, int(F.item), int(D.ship), int(AttrId.max_velocity)))
+                    out.append('m_mod %d %d %d - %d %d %d %d - %d' % (
+                        src, e, int(F.item), int(D.ship), int(AttrId.mass), int(OP.mod_add), int(AG.stack),
+                        int(AttrId.mass_addition)))
+            if mwd in self.effects:
+                out.append('m_mod %d %d %d - %d %d %d %d - %d' % (
+                    src, mwd, int(F.item), int(D.ship), int(AttrId.signature_radius), int(OP.post_percent),
+                    int(AG.stack), int(AttrId.signature_radius_bonus)))
+            if any(aar in ty['effects'] for ty in self.types.values()):
+                out.append('m_effect %d -2 %d' % (src, int(EC.passive)))
+                out.append('m_pymod %d -2 2 %d %d %d' % (src, int(F.item), int(D.self), int(AttrId.armor_dmg_amount)))
+                for t, ty in self.types.items():
+                    if aar in ty['effects']:
+                        out.append('m_teffect %d %d -2' % (src, t))
         for b, tpls in self.buffs.items():
             for tp in tpls:
                 out.append('u_buff %d %d %d %s %d %d %d' % (src, b, tp['filter'], o(tp['extra']), tp['tgt'],
